@@ -14,7 +14,11 @@ LEVEL = "exploration"
 RULE = ("enumeration: (mirek value, destination kind) for set, (limit selector, value) for limits, (query selector, "
         "stored value) for queries, plus (selector, value, faulty step, fault kind) and illegal arguments; every "
         "enumerated tuple is distinct by construction; non-trivial = the two bytes of the value differ (byte order "
-        "matters) or a fault/illegal argument is involved")
+        "matters) or a fault/illegal argument is involved; several sequences in flight: (2 or 3 sequences with their "
+        "arguments, advance order) - for pairs every order of the first eight advances x a list of value pairs differing "
+        "in the high byte / the low byte / both, for triples a list of orders, plus Hypothesis-generated tuples; "
+        "non-trivial = the sequences overlap in time and do not all carry the same value ('exhaustive' in the evidence "
+        "refers to the single-sequence enumeration only)")
 ASSUMPTIONS = [
     "a conforming DT8 unit takes DTR0 as the low byte and DTR1 as the high byte of a 16-bit value, answers QUERY COLOUR "
     "VALUE with the high byte and leaves the low byte in DTR0 (IEC 62386-209 9.x / command 250), acts on an "
@@ -23,6 +27,8 @@ ASSUMPTIONS = [
     "the model keeps registers raw (no clamping to the Tc limits), so 'ends up with exactly the requested value' is a "
     "statement about bytes; for 65535 (MASK) only the DTR contents at the time of the command are judged",
     "limit selectors other than the four defined ones are not required to be rejected (the statement is silent)",
+    "sequences in flight at the same time on separate buses (one driver per DALI line in one process) are independent: "
+    "each must do to its unit, and return, exactly what it does when it runs alone",
 ]
 
 DESTS = ["short", "int", "group", "broadcast"]
@@ -294,6 +300,147 @@ def run_case(case):
     return case_single(case)
 
 
+KINDS3 = ("set", "limit", "query")
+
+
+def _job(kind, v, k):
+    """The k-th variation of a set / limit / query job carrying value v."""
+    if kind == "set":
+        return {"kind": "set", "value": v, "dest": DESTS[k % 4]}
+    if kind == "limit":
+        return {"kind": "limit", "value": v, "selector": (k // 2) % 4, "dest": DESTS[(k + 1) % 4], "as_enum": bool(k & 1)}
+    sels = selectors()
+    return {"kind": "query", "selector": sels[k % len(sels)], "value": v, "int_addr": bool(k & 1)}
+
+
+def value_pairs(seed, n):
+    """Pairs of 16-bit values: differing in the high byte only, in the low byte only, in both; then seed-derived ones."""
+    out = [(0x1234, 0x5634), (0x00FF, 0x01FF), (0x0000, 0xFE00), (0x0099, 0x0199),          # high byte
+           (0x1234, 0x1256), (0xFE00, 0xFE01), (0x0100, 0x01FF), (0x0099, 0x0072),          # low byte
+           (0x0099, 0x0172), (0x1234, 0x4321), (0x00FF, 0xFE00), (0xFFFF, 0x0000), (0xFEFF, 0x0100), (0x0064, 0x03E8)]
+    k = 0
+    while len(out) < n:
+        a = (seed * 7919 + k * 25717 + 4660) & 0xFFFF
+        b = (a ^ ((0x0100 << (k % 8)) if k % 3 == 0 else (1 << (k % 8)) if k % 3 == 1 else (seed * 31 + k * 40503 + 1) & 0xFFFF)) & 0xFFFF
+        if a != b:
+            out.append((a, b))
+        k += 1
+    return out[:n]
+
+
+def pair_orders():
+    """Every order of the first eight advances of two sequences in which each advances four times (all interleavings
+    of two four-command sequences), then two that leave everything to the cycle."""
+    import itertools
+    out = []
+    for ones in itertools.combinations(range(8), 4):
+        out.append([1 if i in ones else 0 for i in range(8)])
+    return out
+
+
+TRIPLE_ORDERS = [([], [0, 1, 2]), ([], [2, 1, 0]), ([], [1, 2, 0]), ([0], [2, 1, 0]), ([0, 0], [1, 2, 0]), ([0, 1], [2, 0, 1]),
+                 ([], [0, 0, 1, 1, 2, 2]), ([0, 1, 1], [2, 0, 1]), ([0, 0, 0, 1], [2, 1, 0]), ([0] * 20, [1, 2])]
+
+
+def _inter(jobs, schedule, cycle=None):
+    return {"kind": "interleaved", "jobs": jobs, "schedule": schedule, "cycle": cycle or []}
+
+
+def _differ(case):
+    vs = [c.get("value") for c in case["jobs"] if c["kind"] != "illegal"]
+    return len(set(vs)) > 1
+
+
+def _shard_inter(arg):
+    what = arg[0]
+    res = Result()
+
+    def go(case, label):
+        res.count()
+        vs = run_case(case)
+        if LAST_INTER[0][1] and _differ(case):
+            res.nontrivial()
+        res.label(label)
+        for sig, msg in vs:
+            res.violation(sig, case, msg)
+
+    if what == "pairs":
+        _, ka, kb, seed, npairs = arg
+        orders = pair_orders()
+        for pi, (va, vb) in enumerate(value_pairs(seed, npairs)):
+            for oi, order in enumerate(orders):
+                k = pi * 7 + oi
+                go(_inter([_job(ka, va, k), _job(kb, vb, k + (oi % 3))], order), "interleaved:%s+%s" % (ka, kb))
+            go(_inter([_job(ka, va, pi), _job(kb, vb, pi)], [0] * 20), "interleaved:sequential")
+        res.sample(_inter([_job(ka, 0x0099, 0), _job(kb, 0x0172, 1)], [0, 1, 0, 1]), cls="interleaved pair")
+    elif what == "triples":
+        _, ka, seed, ntr = arg
+        vp = value_pairs(seed + 1, ntr)
+        for kb in KINDS3:
+            for kc in KINDS3:
+                for pi, (va, vb) in enumerate(vp):
+                    vc = (va & 0xFF00) | (vb & 0x00FF)
+                    for oi, (sched, cyc) in enumerate(TRIPLE_ORDERS):
+                        k = pi * 5 + oi
+                        go(_inter([_job(ka, va, k), _job(kb, vb, k + 1), _job(kc, vc, k + 2)], sched, cyc),
+                           "interleaved:three")
+        res.sample(_inter([_job(ka, 0x0099, 0), _job("limit", 0x0172, 1), _job("query", 0x1234, 2)], [], [2, 1, 0]),
+                   cls="interleaved triple")
+    elif what == "illegal":
+        # a rejected call in between must not disturb a sequence in flight (and must still be rejected before sending)
+        for ki, ka in enumerate(KINDS3):
+            for wi, (w, n) in enumerate((("set", len(ILLEGAL_TC)), ("limit", len(ILLEGAL_TC)), ("query", 6))):
+                for i in range(n):
+                    for h in range(0, 5):
+                        go(_inter([_job(ka, 0x1234 + 257 * i, i + h), {"kind": "illegal", "what": w, "i": i}], [0] * h + [1]),
+                           "interleaved:with-illegal-call")
+    elif what == "hyp":
+        from harness import hyp
+        _, seed, n = arg
+        hyp.search(inter_st(), run_case, res, n, seed, ID,
+                   nontrivial=lambda c: LAST_INTER[0] is not None and LAST_INTER[0][0] == id(c) and LAST_INTER[0][1] and _differ(c),
+                   classify=lambda c: ["hyp:interleaved:%d" % len(c["jobs"])] + ["hyp:interleaved:has-" + j["kind"] for j in c["jobs"]],
+                   extra_rounds_budget_s=10.0)
+    return res
+
+
+def inter_st():
+    from hypothesis import strategies as st
+
+    @st.composite
+    def gen(draw):
+        n = draw(st.sampled_from([2, 2, 3]))
+        base = draw(st.one_of(st.integers(0, 65535), st.sampled_from([0, 0x00FF, 0xFF00, 0xFEFF, 0xFFFF, 0x0100])))
+        jobs = []
+        for i in range(n):
+            how = draw(st.sampled_from(["high", "low", "both", "any", "same"])) if i else "same"
+            v = {"high": base ^ (draw(st.integers(1, 255)) << 8), "low": base ^ draw(st.integers(1, 255)),
+                 "both": base ^ draw(st.integers(1, 255)) ^ (draw(st.integers(1, 255)) << 8),
+                 "any": draw(st.integers(0, 65535)), "same": base}[how]
+            kind = draw(st.sampled_from(["set", "set", "limit", "limit", "query", "query", "illegal"]))
+            if kind == "illegal":
+                w = draw(st.sampled_from(["set", "limit", "query"]))
+                jobs.append({"kind": "illegal", "what": w, "i": draw(st.integers(0, 5))})
+                continue
+            j = _job(kind, v, draw(st.integers(0, 63)))
+            if kind == "query":
+                if draw(st.integers(0, 4)) == 0:
+                    j["fault"] = [draw(st.integers(0, 3))] + draw(st.sampled_from([["silence"], ["garble", 0x12], ["garble", None]]))
+                j["level"] = draw(st.sampled_from([0, 1, 170, 254, 255]))
+            jobs.append(j)
+        sched = draw(st.lists(st.integers(0, n - 1), max_size=14))
+        cycle = draw(st.one_of(st.just([]), st.permutations(list(range(n))), st.lists(st.integers(0, n - 1), min_size=1, max_size=5)))
+        return _inter(jobs, sched, list(cycle))
+
+    return gen()
+
+
+def _dispatch(arg):
+    if arg[0] == "inter":
+        return _shard_inter(arg[1:])
+    return _shard(arg)
+
+
 def _shard(arg):
     kind = arg[0]
     res = Result()
@@ -357,7 +504,19 @@ def run(ctx):
         qs = 1
     for k in range(0, len(sels), 2 if q else 1):
         shards.append(("query", sels[k:k + (2 if q else 1)], s % qs, qs))
-    ctx.pmap(_shard, shards)
+    # several sequences in flight at the same time, each on its own bus
+    npairs = 16 if q else 120
+    for ka in KINDS3:
+        for kb in KINDS3:
+            shards.append(("inter", "pairs", ka, kb, s, npairs))
+        shards.append(("inter", "triples", ka, s, 3 if q else 12))
+    shards.append(("inter", "illegal"))
+    for k in range(4 if q else 16):
+        shards.append(("inter", "hyp", s * 1000 + k, 300 if q else 3000))
+    ctx.pmap(_dispatch, shards)
+    # 'exhaustive' speaks of the single-sequence space (all 65536 values per destination / selector), as before; the
+    # sequences-in-flight cases are an enumeration over a LIST of value pairs plus a Hypothesis sample, not a complete space
     ctx.result.exhaustive = not q
+    ctx.result.extra["sequences_in_flight"] = "enumerated orders x listed value pairs + Hypothesis sample (not exhaustive)"
     ctx.result.extra["query_selectors"] = len(sels)
     ctx.result.extra["strides"] = {"set_and_limit": st_, "query_values": qs}
